@@ -213,3 +213,12 @@ def _f21(f, pid, case, clause, ctx):
     txt = " ".join(str(case.get(k, "")) for k in ("detail", "err", "opt_err"))
     txt += " ".join(str(p.get("val", {}).get("err", "")) for p in case.get("phases", []))
     return "window shape cannot be larger than input array shape" in txt
+
+
+@matcher("dtype_inference_calls_user_function_on_fake_block")
+def _f22(f, pid, case, clause, ctx):
+    if case.get("part") != "mapblocks-infer-meta" or not clause.startswith("user-function-called-on-data-outside-execution:constructing"):
+        return False
+    bad = [e for e in case.get("ev", []) if e["e"] == "call" and e["phase"] != "executing" and e["size"] > 0]
+    reads = [e for e in case.get("ev", []) if e["e"] == "read" and e["phase"] != "executing"]
+    return bool(bad) and all(e["size"] == 1 and e["phase"] == "constructing" for e in bad)
